@@ -17,7 +17,7 @@ RULE = ('Random well-nested write histories: 1-3 interchanges x 0-3 groups x 0-3
 ASSUMPTIONS = ['a sibling header while a loop of the same level is still open is outside the property\'s domain and not generated',
                'data contains none of the writer\'s delimiters; about a tenth of the histories re-use a control number within its scope: counts and trailers must still be true, only the duplicate-id finding itself is then ignored on re-reading',
                'check_837_lx (LX renumbering) left at its default']
-REQUIRED_COUNTERS = ['trailers:wrong:earlier-sibling-id', 'histories', 'runs', 'runs:cut', 'runs:control-number-reused', 'trailers:omitted', 'trailers:wrong', 'reader-rechecks', 'isa:00501', 'isa:00401']
+REQUIRED_COUNTERS = ['runs:control-number-with-foreign-delimiter', 'trailers:wrong:earlier-sibling-id', 'histories', 'runs', 'runs:cut', 'runs:control-number-reused', 'trailers:omitted', 'trailers:wrong', 'reader-rechecks', 'isa:00501', 'isa:00401']
 MIN_CASES = {'quick': 4000, 'thorough': 1500000}
 
 TERMS = [('~', '*', ':', '^', '\n'), ('!', '|', '>', '^', ''), ('\x1c', '\x1d', '<', '\x1f', '\r\n'), ('\n', '*', ':', '^', ''), ('~', '*', '\\', '^', '\n'),
@@ -43,6 +43,8 @@ def gen(rng):
         ngroups = rng.randint(0, 3)
         for g in range(ngroups):
             gid = str(g * 10 + rng.randint(1, 9))
+            if rng.random() < 0.05:
+                gid = rng.choice(['1*%s', '7:%s', '~%s']) % gid
             if g and rng.random() < 0.1:
                 gid = prev_gid
             prev_gid = gid
@@ -52,6 +54,9 @@ def gen(rng):
             nsets = rng.randint(0, 3)
             for t in range(nsets):
                 sid = '%04d' % (t * 10 + rng.randint(1, 9))
+                if rng.random() < 0.1:
+                    # an alphanumeric control number with punctuation that is a delimiter elsewhere but (for most writers below) not here
+                    sid = rng.choice(['AB*%d', '12:%d', 'A~%d', '*%d', '1*2:%d', ':%d:']) % (t * 10 + rng.randint(1, 9))
                 if t and rng.random() < 0.12:
                     sid = rng.choice(sids)
                 sids = (sids if t else []) + [sid]
@@ -107,10 +112,29 @@ def play(ctx, ev, cut, terms, meta):
             if lv == level:
                 return
 
+    def eff(cid):
+        # a control number may hold any character but this writer's own delimiters
+        return ''.join('Q' if c in (st, et, sb) else c for c in cid)
+
+    def source(parts):
+        # the segment handed to the writer: parsed from the usual ~ * : text, or, when a value holds one of those, from text in the writer's own delimiters
+        if any(c in p for p in parts for c in '~*:'):
+            info['punctuated'] = info.get('punctuated', 0) + 1
+            return S.Segment(et.join(parts), st, et, sb)
+        return S.Segment('*'.join(parts), '~', '*', ':')
+
     prev_ids = {'ST': [], 'GS': [], 'ISA': []}
     for e in ev[:cut]:
         if e[0] == 'open':
             _, lv, cid, arg = e
+            if lv != 'ISA' and any(c in cid for c in '~*:'):
+                cid = eff(cid)
+                parts = ['ST', '837', cid] if lv == 'ST' else ['GS', 'HC', 'A', 'B', '20040608', '1333', cid, 'X', '004010X098A1']
+                w.Write(source(parts))
+                want.append(fmt(parts[0], [[x] for x in parts[1:]], st, et, sb))
+                stack[-1][2] += 1
+                stack.append([lv, cid, 1 if lv == 'ST' else 0])
+                continue
             if lv == 'GS':
                 prev_ids['ST'] = []
             elif lv == 'ISA':
@@ -146,7 +170,7 @@ def play(ctx, ev, cut, terms, meta):
             cid = [s for s in stack if s[0] == lv][-1][1]
             cnt = [s for s in stack if s[0] == lv][-1][2] + (1 if lv == 'ST' else 0)
             if how == 'own':
-                seg = '%s*%d*%s' % (tr, cnt, cid)
+                seg = [tr, str(cnt), cid]
             else:
                 info['wrong'] += 1
                 r = zlib.crc32(repr((meta, len(want))).encode()) % 8
@@ -156,8 +180,8 @@ def play(ctx, ev, cut, terms, meta):
                 other = earlier[-1] if earlier else 'WRONG'
                 if earlier and r >= 6:
                     info['wrong:earlier-sibling-id'] = info.get('wrong:earlier-sibling-id', 0) + 1
-                seg = [tr + '*99*' + cid, tr + '*X*' + cid, tr + '**9999', tr, tr + '*%d*WRONG' % cnt, tr + '*0', tr + '*%d*%s' % (cnt, other), tr + '*%d*%s' % (cnt, other)][r]
-            w.Write(S.Segment(seg, '~', '*', ':'))
+                seg = [[tr, '99', cid], [tr, 'X', cid], [tr, '', '9999'], [tr], [tr, str(cnt), 'WRONG'], [tr, '0'], [tr, str(cnt), other], [tr, str(cnt), other]][r]
+            w.Write(source(seg))
             prev_ids[lv].append(cid)
             close_model(lv)
     open_at_close = len(stack)
@@ -226,6 +250,8 @@ def one(ctx, ev, cut, terms, meta):
         return None
     ctx.count('trailers:omitted', info['omitted'])
     ctx.count('trailers:wrong', info['wrong'])
+    if info.get('punctuated'):
+        ctx.count('runs:control-number-with-foreign-delimiter')
     ctx.count('trailers:wrong:earlier-sibling-id', info.get('wrong:earlier-sibling-id', 0))
     st, et, sb, rep, eol = terms
     if got != want:
